@@ -201,6 +201,8 @@ pub struct World {
     pub step_no: u64,
     /// datagrams delivered in the current step: (dst node, kind, src addr, claimed src id, nonce)
     pub delivered_now: Vec<(usize, u8, SocketAddr, Option<NodeId>, [u8; 12])>,
+    /// a datagram was lost, duplicated, overtaken (by another datagram or by a timer), or a node restarted, earlier in this history
+    pub disturbed: bool,
     /// true origin of each entry of `delivered_now`
     pub delivered_origin: Vec<i32>,
     /// (node id, address) pairs node 0 itself dialled and answered a WHOAREYOU for
@@ -319,6 +321,7 @@ impl World {
             emitted_by_key: BTreeMap::new(),
             step_no: 0,
             delivered_now: vec![],
+            disturbed: false,
             delivered_origin: vec![],
             initiated: BTreeSet::new(),
             idnonces: BTreeSet::new(),
@@ -735,6 +738,9 @@ impl World {
         self.delivered_origin.clear();
         let pre: Vec<Option<HandlerSnapshot>> = (0..self.nodes.len()).map(|i| self.snap(i)).collect();
         self.log_mark = self.log.len();
+        if matches!(ev, Ev::Drop(_) | Ev::Dup(_) | Ev::Restart(_)) || matches!(ev, Ev::Deliver(i) if *i > 0) || (matches!(ev, Ev::Timer) && !self.inflight.is_empty()) {
+            self.disturbed = true;
+        }
         if !matches!(ev, Ev::Timer | Ev::Idle(_)) {
             clock::advance(Duration::from_millis(10));
         }
@@ -1097,6 +1103,29 @@ impl World {
                             if held && !q.sessions.iter().any(|x| x.addr == s.addr) {
                                 let (name, addr) = (self.name_of(&s.addr.node_id), s.addr.socket_addr);
                                 self.violate("C20", "each delivered request leads to exactly one response to the node address it came from", "held-request-unanswerable", format!("node {i} dropped its session with {name} at {addr} in a timer step that only reported timeouts {:?}, while its application holds a request from that peer", self.last_events[i]));
+                            }
+                        }
+                    }
+                }
+            }
+            // while no datagram was lost, duplicated or overtaken, no node restarted and nothing is
+            // crafted, every message datagram is authentic and under keys of a handshake both nodes
+            // completed: receiving one never takes the sender's session away while the application
+            // holds a request from it
+            if !self.disturbed && self.cfg.ghost.is_none() && matches!(ev, Ev::Deliver(_)) {
+                for (to, kind, src, _, _) in self.delivered_now.clone() {
+                    if kind != 0 {
+                        continue;
+                    }
+                    if let (Some(p), Some(q)) = (&pre[to], &post[to]) {
+                        for s in p.sessions.iter().filter(|s| s.addr.socket_addr == src) {
+                            let held = self.nodes[to].inbound.iter().any(|(a, _)| *a == s.addr);
+                            if held {
+                                self.count("authentic_deliveries_with_a_held_request");
+                            }
+                            if held && !q.sessions.iter().any(|x| x.addr == s.addr) {
+                                let (name, addr) = (self.name_of(&s.addr.node_id), s.addr.socket_addr);
+                                self.violate("C20", "each delivered request leads to exactly one response to the node address it came from", "held-request-unanswerable", format!("node {to} dropped its session with {name} at {addr} on receiving an authentic message datagram from it ({:?}), while its application holds a request from that peer", self.last_events[to]));
                             }
                         }
                     }
